@@ -10,7 +10,7 @@ MODULES = ["Prelude", "C09_Model", "C09_Spec", "C09_Check"]
 PROPS_MODULE = "C09_Properties"
 THEOREMS = ["C09_size_le_global", "C09_tokenbucket_le_global", "C09_schema_update_bounds", "C09_fallback",
             "C09_default_iff_deleted", "C09_fallback_heartbeat", "C09_hysteresis", "C09_ready_again",
-            "C09_silence_falls_back", "C09_silence_history", "C09_failing_bounds", "C09_recovery_allocate", "C09_recovery_count", "C09_history"]
+            "C09_failed_heartbeats_fall_back", "C09_silence_falls_back", "C09_silence_history", "C09_failing_bounds", "C09_recovery_allocate", "C09_recovery_count", "C09_history"]
 # VERIF_C09_MODEL=unrepaired / noreclamp compares the same cases with the model of the tree before
 # C09_clamp.diff / before C09_reclamp_on_schema_update.diff (correspondence only)
 ALT_MODEL = os.environ.get("VERIF_C09_MODEL", "")
@@ -24,6 +24,11 @@ RULE = ("distinct (schema, mode, clientset, event list) histories in which the r
         "another type, an error, a rejected or a stale reply), or readiness was lost, or the schema's limits were "
         "changed while a server quota was in force, or its type changed, or it was deleted")
 TRUSTED_BASE = [
+    "the readiness layer: the real clientSets.sync / clientHeart / setLeaderStatus / IsReady run against a real loopback HTTP "
+    "server with scripted endpoints (server info: same leader / other / none / failure; heartbeat: 200 / 500 / no answer; "
+    "acquire), driven round by round on a virtual clock (clientsets.go instrumented at build time: time.Now() -> verifNow()); "
+    "in the model a heartbeat round is EHb, an info round with a changed leader is ELeader and any other info round is "
+    "EElapse 0 (sync does not touch the readiness unless the leader changed)",
     "the counter-manager layer runs on a virtual clock: lib/props/c09.py generates, from the CURRENT remote_counter.go, a copy "
     "with time.Now() -> a settable clock, the 900 ms watchdog ticker -> a ticker fired by the harness, the worker goroutine "
     "not started (the harness plays its rounds by calling the real doAcquire); resetCheck, acquireRequest, doAcquire and send "
